@@ -1006,12 +1006,13 @@ func ParsePortionSpecific(input string) (*big.Rat, InterpreterError) {
 	} else {
 		fractionMatch := fractionRegex.FindStringSubmatch(input)
 		if len(fractionMatch) != 0 {
-			numerator := fractionMatch[1]
-			denominator := fractionMatch[2]
-			res, ok = new(big.Rat).SetString(numerator + "/" + denominator)
-			if !ok {
+			// both sides are read in base ten (a leading zero has no special meaning)
+			numerator, okNum := new(big.Int).SetString(fractionMatch[1], 10)
+			denominator, okDen := new(big.Int).SetString(fractionMatch[2], 10)
+			if !okNum || !okDen || denominator.Sign() == 0 {
 				return nil, BadPortionParsingErr{Reason: "invalid fractional format", Source: input}
 			}
+			res = new(big.Rat).SetFrac(numerator, denominator)
 		}
 	}
 	if res == nil {
